@@ -45,10 +45,17 @@ CHECKS = {
               "implication of its 0/1-valued arguments, and build_truth: for every constructor expression (arbitrary nesting) "
               "over boolean leaves with legal signs and pairwise distinct All-arguments, the built model evaluates to the "
               "expression's truth function (induction over the expression, through negate_compl and the Good invariant that "
-              "constructors and negate preserve). Tie: trees built by the real constructors, by plog.from_json and by "
-              "Imply.from_cicJE are compared structurally with the model's build; oracle: full truth tables against an "
-              "independent truth function; thorough adds an exhaustive small scope."),
-        note="AtLeast(k<=0) without explicit sign is read by the constructor's documented sign rule. The JSON->constructor-call and rule-dictionary->constructor-call mappings are on the harness side (json_ast, cic_ast).",
+              "constructors and negate preserve); json_truth (with fromJson_userJson, truth_viaJson) — plog.from_json dispatches the "
+              "JSON of an expression to the same constructor calls and the model it builds evaluates to the expression's truth "
+              "function; cic_semantics — the model Imply.from_cicJE builds from a rule dictionary (default component mapping or a "
+              "cmp2prop returning id strings) evaluates on every 0/1 assignment to what the rule says: REQUIRES_ALL / REQUIRES_ANY "
+              "/ ONE_OR_NONE / FORBIDS_ALL / REQUIRES_EXCLUSIVELY of the consequence's components, implied by the ALL / ANY "
+              "combination of the sub-conditions. Tie: trees built by the real constructors (propositions handed over as list, "
+              "tuple, generator, iterator, map), by plog.from_json (compared with the model's from_json on the same JSON) and by "
+              "Imply.from_cicJE (default mapping, cmp2prop returning strings / variables, ids under another key; compared with the "
+              "model's Cic.toAst on the same dictionary) are compared structurally with the model's build; oracle: full truth "
+              "tables against an independent truth function; thorough adds an exhaustive small scope."),
+        note="AtLeast(k<=0) without explicit sign is read by the constructor's documented sign rule. Judged on models that errors() accepts (pairwise distinct All-arguments). The JSON a user writes (Ast.userJson) and the rule dictionary (Cic) are part of the Lean model since session 3; the harness keeps its own rendering of both mappings as a cross-check.",
         technique="Lean 4 theorem (induction over constructor expressions) + differential correspondence + truth-table oracle",
         ref="§4 C04"),
     "C05": dict(
